@@ -3,7 +3,9 @@
 from __future__ import annotations
 
 import asyncio
-from binascii import hexlify
+import socket
+from binascii import hexlify, unhexlify
+from pathlib import Path
 from typing import Any
 
 from vf import memstream
@@ -15,7 +17,8 @@ ENGINE = "iso14229-reference"
 TECHNIQUE = (
     "runtime monitors on the real virtual ECU: no-raise + session-invariant postcondition (icontract on UDSServer.respond) + "
     "client acceptance oracle (UDSResponse.parse_dynamic and helpers.parse_pdu on every reply) + connection-loop survival over "
-    "in-memory streams, under generated request histories"
+    "in-memory streams + the virtual ECU behind its real listening socket (UnixUDSServerTransport.run / TCPUDSServerTransport.run, "
+    "as `gallia vecu` starts it) answering real client connections, under generated request histories"
 )
 LEVEL_TEXT = (
     "Exploration: virtual ECUs (seeds x parameter sets) answer histories of up to 2000 requests each (random bytes of length 1..4095, "
@@ -23,27 +26,39 @@ LEVEL_TEXT = (
     "model-aware requests that drive session changes, seed/key pairs and resets). After every request: no exception, the session is "
     "one the ECU offers (postcondition evaluated on the real respond()), the reply re-parses to the same bytes and gallia's own "
     "parse_pdu accepts it for exactly that request in raw and typed form. The same histories are replayed through the real "
-    "TCPUDSServerTransport.handle_client loop on in-memory streams: it must answer every request and only end at EOF."
+    "TCPUDSServerTransport.handle_client loop on in-memory streams: it must answer every request and only end at EOF. "
+    "Socket mode: the ECU is started through the transport's own run() on a unix socket (unix-lines) or a loopback port (tcp-lines), "
+    "so the streams are the ones the server creates for itself; a plain asyncio client opens several connections one after the other "
+    "to the same ECU and sends histories in which every request length class up to 4095 bytes (powers of two and their neighbours, "
+    "the ISO-TP maximum, random lengths; random bytes and service-shaped heads) occurs, one request at a time or in bursts; every "
+    "request that is due a reply must get exactly the reply the twin computes, on the same connection, before the client closes."
 )
-LEVEL_NOTE = "Trusted: the in-memory stream stand-ins (vf/memstream.py). Empty requests and non-hex lines are outside the statement."
+LEVEL_NOTE = ("Trusted: the in-memory stream stand-ins (vf/memstream.py). Empty requests and non-hex lines are outside the statement. "
+              "Requests are at most 4095 bytes long (the largest PDU classic ISO-TP carries), also on the socket path.")
 RULE = (
     "cases = (server seed, parameter set, history prefix, request); requests from the shared generator (vf/models/vecu.gen_request); "
-    "non-trivial = the ECU produced a reply (so the client-acceptance oracle ran); distinct = distinct (server, state, request)"
+    "non-trivial = the ECU produced a reply (so the client-acceptance oracle ran); distinct = distinct (server, state, request); "
+    "socket mode adds one case per client connection (server, transport kind, connection number, requests sent)"
 )
-ASSUMPTIONS = ["requests are non-empty byte strings; lines on the connection loop are valid hex (as the line transports produce)"]
+ASSUMPTIONS = ["requests are non-empty byte strings of at most 4095 bytes; lines on the connection loop are valid hex (as the line transports produce)"]
 EXHAUSTIVE = {"quick": False, "thorough": False}
 
 
 def shards(tier: str, seed: int) -> list[dict[str, Any]]:
     if tier == "quick":
-        return [{"base": f"q{seed}-{i}", "servers": 20, "length": 2000} for i in range(12)] + [{"base": f"loop{seed}-{i}", "servers": 6, "length": 400, "loop": True} for i in range(4)]
-    return [{"base": f"t{seed}-{i}", "servers": 60, "length": 4000} for i in range(14)] + [{"base": f"loop{seed}-{i}", "servers": 60, "length": 600, "loop": True} for i in range(2)]
+        return [{"base": f"q{seed}-{i}", "servers": 20, "length": 2000} for i in range(12)] + [{"base": f"loop{seed}-{i}", "servers": 6, "length": 400, "loop": True} for i in range(4)] + [
+            {"base": f"sock{seed}-{i}", "servers": 4, "length": 120, "connections": 3, "sock": True} for i in range(2)]
+    return [{"base": f"t{seed}-{i}", "servers": 60, "length": 4000} for i in range(14)] + [{"base": f"loop{seed}-{i}", "servers": 60, "length": 600, "loop": True} for i in range(2)] + [
+        {"base": f"sock{seed}-{i}", "servers": 12, "length": 300, "connections": 4, "sock": True} for i in range(2)]
 
 
 def required_reach(tier: str) -> dict[str, int]:
     return {"replies": 10000, "contract.session-invariant": 10000, "client.accepted.raw": 10000, "client.accepted.typed": 10000,
             "positive-replies": 500, "suppressed": 50, "non-default-session": 500, "loop.connections": 4, "loop.replies": 500,
-            "long-requests": 10, "inactivity-pause": 20}
+            "long-requests": 10, "inactivity-pause": 20,
+            "sock.unix.connections": 4, "sock.tcp.connections": 4, "sock.reconnects": 4, "sock.lockstep-connections": 2,
+            "sock.burst-connections": 2, "sock.replies": 500, "sock.len.2^9": 5, "sock.len.2^10": 5, "sock.len.2^11": 5,
+            "sock.len.2^12": 5, "sock.len.max": 3}
 
 
 class Mon:
@@ -219,11 +234,287 @@ async def conn_loop(ctx: Any, mon: Mon, params: dict[str, Any]) -> None:
                 break
 
 
+# ---- socket mode: the virtual ECU behind its own listening socket ----------------------------------------------------
+ANSWER_WITHIN = 30.0  # real seconds a client waits for a reply line (only ever spent when the ECU has gone silent)
+MAX_REQUEST = 4095  # the largest PDU classic ISO-TP carries
+LENGTH_CLASSES = sorted({n for k in range(8, 13) for n in (2**k - 1, 2**k, 2**k + 1) if n <= MAX_REQUEST} | {MAX_REQUEST - 1, MAX_REQUEST})
+
+
+def sized_request(rng: Any, m: Any) -> bytes:
+    """a request of a chosen length class: random bytes or a service-shaped head, filled up with random bytes"""
+    n = rng.choice(LENGTH_CLASSES) if rng.random() < 0.7 else rng.randint(256, MAX_REQUEST)
+    offered = sorted(m.M.get(m.S, {})) or [0x3E]
+    head = rng.choice([b"", b"", bytes([rng.choice(offered)]), b"\x2e" + rng.randbytes(2), b"\x31\x01" + rng.randbytes(2), b"\x36\x01",
+                       b"\x3e\x00", b"\x27\x02", b"\x3d\x11", bytes([rng.randrange(256)])])
+    return (head + rng.randbytes(n))[:n]
+
+
+def len_class(n: int) -> str:
+    return f"sock.len.2^{max(8, (n - 1).bit_length())}"  # 2^k: 2^(k-1) < n <= 2^k (everything up to 256 in 2^8)
+
+
+def free_port() -> int:
+    with socket.socket() as s:
+        s.bind(("127.0.0.1", 0))
+        return int(s.getsockname()[1])
+
+
+class Served:
+    """One virtual ECU started the way `gallia vecu <uri> rng` starts it: transport.run() of the transport class that belongs to
+    the URI scheme.  The only thing put in between is an observer around the instance's handle_client, which records when the
+    connection loop of a connection has returned and then closes that connection's writer (gallia leaves it open), so that a client
+    sees EOF instead of silence and the listening server can be shut down without waiting for ever (Python 3.12.1 wait_closed)."""
+
+    def __init__(self, kind: str, server: Any, scratch: Path, tag: str):
+        self.kind, self.server, self.scratch, self.tag = kind, server, scratch, tag
+        self.conns: list[dict[str, Any]] = []
+        self.task: asyncio.Future[None] | None = None
+        self.path: Path | None = None
+        self.port = 0
+        self.uri = ""
+
+    def _start(self) -> None:
+        from gallia.services.uds.server import TCPUDSServerTransport, UnixUDSServerTransport
+        from gallia.transports import TargetURI
+
+        if self.kind == "unix":
+            self.path = self.scratch / f"{self.tag}.sock"
+            self.path.unlink(missing_ok=True)
+            self.uri = f"unix-lines://{self.path}"
+            tr: Any = UnixUDSServerTransport(self.server, TargetURI(self.uri))
+        else:
+            self.port = free_port()
+            self.uri = f"tcp-lines://127.0.0.1:{self.port}"
+            tr = TCPUDSServerTransport(self.server, TargetURI(self.uri))
+        real = tr.handle_client
+        conns = self.conns
+
+        async def observed(reader: Any, writer: Any) -> None:
+            rec = {"ended": False, "writer": writer, "done": asyncio.Event()}
+            conns.append(rec)
+            try:
+                await real(reader, writer)
+            finally:
+                rec["ended"] = True
+                rec["done"].set()
+                writer.close()
+
+        tr.handle_client = observed
+        self.task = asyncio.ensure_future(tr.run())
+
+    async def _open(self) -> tuple[Any, Any]:
+        if self.kind == "unix":
+            return await asyncio.open_unix_connection(str(self.path), limit=2**20)
+        return await asyncio.open_connection("127.0.0.1", self.port, limit=2**20)
+
+    async def connect(self) -> tuple[Any, Any, dict[str, Any]] | str:
+        """a client connection that this server's connection loop has picked up, or the reason why there is none"""
+        loop = asyncio.get_running_loop()
+        for attempt in range(6):
+            if self.task is None:
+                self._start()
+            assert self.task is not None
+            end = loop.time() + 60
+            while loop.time() < end and not self.task.done():
+                before = len(self.conns)
+                try:
+                    reader, writer = await self._open()
+                except OSError:
+                    await asyncio.sleep(0.01)
+                    continue
+                seen = loop.time() + 20
+                while len(self.conns) == before and loop.time() < seen and not self.task.done():
+                    await asyncio.sleep(0.005)
+                if len(self.conns) > before:
+                    return reader, writer, self.conns[before]
+                writer.close()  # somebody else's listener on that port, or run() gave up
+                break
+            if self.task.done() and not self.task.cancelled() and isinstance(self.task.exception(), OSError) and self.kind == "tcp":
+                self.task = None  # the port was taken in the meantime: another one
+                continue
+            if self.task.done():
+                return f"run() ended: {self.task.exception()!r}" if not self.task.cancelled() else "run() was cancelled"
+            return "no connection to the listening socket came about"
+        return "no free loopback port"
+
+    async def stop(self, ctx: Any) -> None:
+        for rec in self.conns:
+            rec["writer"].close()
+        await asyncio.sleep(0.01)
+        if self.task is not None and not self.task.done():
+            self.task.cancel()
+            _, pending = await asyncio.wait([self.task], timeout=10)
+            if pending:
+                ctx.reach("sock.shutdown-hung")  # interpreter trait (Server.wait_closed), not a verdict
+        elif self.task is not None and not self.task.cancelled():
+            self.task.exception()
+        if self.path is not None:
+            self.path.unlink(missing_ok=True)
+
+
+def same_reply(got: bytes, want: bytes) -> bool:
+    # seeds are fresh per server instance: 67 <odd level> <seed> only has to agree in kind
+    return got == want or (got[:1] == b"\x67" and want[:1] == b"\x67" and got[1:2] == want[1:2])
+
+
+async def one_connection(ctx: Any, mon: Mon, sv: Served, cfg: dict[str, Any], pairs: list[tuple[bytes, bytes | None]], burst: bool, rng: Any) -> bool:
+    """send the (request, reply the twin computed) pairs over one client connection; False = the connection is unusable"""
+    kind = sv.kind
+    c = await sv.connect()
+    if isinstance(c, str):
+        if kind == "tcp" and c == "no free loopback port":
+            ctx.reach("sock.tcp-port-unavailable")
+        else:
+            ctx.violation(f"sock/{kind}/not-listening", "the virtual ECU's transport does not accept a client connection", {**cfg, "mode": "sock", "kind": kind, "why": c})
+        return False
+    reader, writer, rec = c
+    sent: list[bytes] = []
+
+    def wit(q: bytes, **kw: Any) -> dict[str, Any]:
+        return {**cfg, "mode": "sock", "kind": kind, "burst": burst, "request_len": len(q), "request_head": q[:16], "requests_before_on_connection": len(sent) - 1,
+                "previous": [x[:24] for x in sent[-6:-1]], "loop_returned": rec["ended"], **kw}
+
+    async def send(q: bytes) -> str | None:
+        sent.append(q)
+        ctx.reach(len_class(len(q)))
+        if len(q) == MAX_REQUEST:
+            ctx.reach("sock.len.max")
+        data = hexlify(q) + b"\n"
+        try:
+            if rng.random() < 0.3:
+                cut = rng.randrange(len(data))
+                writer.write(data[:cut])
+                await asyncio.wait_for(writer.drain(), ANSWER_WITHIN)
+                await asyncio.sleep(0)
+                data = data[cut:]
+            writer.write(data)
+            await asyncio.wait_for(writer.drain(), ANSWER_WITHIN)
+        except (ConnectionError, TimeoutError) as e:
+            ctx.violation(f"sock/{kind}/connection-dropped", "the virtual ECU dropped the connection: a request cannot be sent any more", wit(q, error=repr(e)))
+            return "dropped"
+        return None
+
+    async def receive(q: bytes, want: bytes) -> str | None:
+        try:
+            line = await asyncio.wait_for(reader.readline(), ANSWER_WITHIN)
+        except TimeoutError:
+            ctx.violation(f"sock/{kind}/no-answer", "a request that is due a reply gets none on a live connection", wit(q, expected=want))
+            return "silent"
+        except ConnectionError as e:
+            line, why = b"", repr(e)
+        else:
+            why = "EOF"
+        if not line.endswith(b"\n"):
+            ctx.violation(f"sock/{kind}/connection-dropped", "the virtual ECU dropped the connection instead of answering a request", wit(q, expected=want, end=why))
+            return "dropped"
+        ctx.reach("sock.replies")
+        try:
+            got = unhexlify(line.strip())
+        except ValueError:
+            ctx.violation(f"sock/{kind}/reply-not-hex", "the virtual ECU sends a line that is not a hex encoded PDU", wit(q, line=line[:80]))
+            return "garbage"
+        if not same_reply(got, want):
+            ctx.violation(f"sock/{kind}/reply-differs", "over the socket the virtual ECU sends another reply than it computes for that request", wit(q, got=got[:80], expected=want[:80]))
+            return "differs"
+        if got:
+            mon.judge_reply(cfg, [x[:64] for x in sent[-20:]], q, got)
+        return None
+
+    ok = True
+    pos = 0
+    while pos < len(pairs) and ok:
+        block = pairs[pos : pos + (rng.choice([2, 3, 8]) if burst else 1)]
+        pos += len(block)
+        for q, _ in block:
+            if await send(q) is not None:
+                ok = False
+                break
+        if not ok:
+            break
+        for q, want in block:
+            if want is not None and await receive(q, want) is not None:
+                ok = False
+                break
+    if ok and rec["ended"]:
+        ctx.violation(f"sock/{kind}/loop-ended-before-eof", "connection loop ended before the client closed (connection dropped)", wit(sent[-1] if sent else b""))
+        ok = False
+    writer.close()
+    try:
+        await asyncio.wait_for(writer.wait_closed(), 10)
+    except (ConnectionError, TimeoutError):
+        pass
+    try:
+        await asyncio.wait_for(rec["done"].wait(), 10)  # tidy: the server side has seen the EOF
+    except TimeoutError:
+        ctx.reach("sock.loop-still-running-after-eof")
+    if ok:
+        ctx.reach(f"sock.{kind}.connections")
+        ctx.reach("sock.burst-connections" if burst else "sock.lockstep-connections")
+        if len(sv.conns) > 1:
+            ctx.reach("sock.reconnects")  # the same ECU (state carried over) serves another connection after the previous one was closed
+    ctx.case(("sock", cfg["server_seed"], kind, len(sv.conns), len(sent)))
+    return ok
+
+
+async def sock_loop(ctx: Any, mon: Mon, params: dict[str, Any]) -> None:
+    """the real start-up path: transport.run() listening on a unix socket / loopback port, real client connections, twin as oracle"""
+    rng = ctx.rng
+    scratch = ctx.mkscratch()
+    for i in range(params["servers"]):
+        if ctx.out_of_time():
+            break
+        kind = ("unix", "tcp")[i % 2]
+        rp = rng.randrange(len(vecu.PARAM_SETS))
+        sseed = f"{params['base']}-{i}"
+        cfg: dict[str, Any] = {"server_seed": sseed, "rp": rp}
+        twin = vecu.Driver(sseed, vecu.PARAM_SETS[rp], vecu.all_switches())
+        await twin.setup()
+        m = twin.model
+        assert m is not None
+        server = vecu.make_server(sseed, vecu.PARAM_SETS[rp], None)
+        await server.setup()
+        sv = Served(kind, server, scratch, f"s{i}")
+        try:
+            for c in range(params["connections"]):
+                pairs: list[tuple[bytes, bytes | None]] = []
+                broken = False
+                for j in range(params["length"] + 1):
+                    if j == params["length"]:
+                        q = b"\x3e\x00"  # always due a reply: nothing the ECU still owes is left unread when the client closes
+                    elif rng.random() < 0.15 or j == 0:
+                        q = sized_request(rng, m)
+                    else:
+                        q = vecu.gen_request(rng, m, None)  # no seed/key pairs: seeds are fresh per server instance
+                    try:
+                        reply, _ = await twin.transport.handle_request(q)
+                    except Exception:
+                        broken = True  # reported by the direct mode
+                        break
+                    m.check(q, twin.is_raw(q), reply)
+                    m.S = twin.server.state.session
+                    pairs.append((q, reply))
+                if not await one_connection(ctx, mon, sv, cfg, pairs, burst=bool((c + i // 2) % 2), rng=rng) or broken:
+                    break
+        finally:
+            await sv.stop(ctx)
+        if i == 0:
+            ctx.sample({"server_seed": sseed, "rp": rp, "listening_on": sv.uri, "connections": len(sv.conns)})
+
+
+def run_sock(coro: Any) -> None:
+    # not asyncio.run(): its final "cancel whatever is left" would wait for ever on a listening server that could not be shut down
+    loop = asyncio.new_event_loop()
+    asyncio.set_event_loop(loop)
+    loop.run_until_complete(coro)
+
+
 def run(ctx: Any, params: dict[str, Any]) -> None:
     import gallia.command  # noqa: F401
 
     mon = Mon(ctx)
-    if params.get("loop"):
+    if params.get("sock"):
+        run_sock(sock_loop(ctx, mon, params))
+    elif params.get("loop"):
         asyncio.run(conn_loop(ctx, mon, params))
     else:
         asyncio.run(direct(ctx, mon, params))
@@ -234,6 +525,30 @@ def replay(ctx: Any, witness: dict[str, Any]) -> None:
 
     def ux(x: Any) -> bytes:
         return bytes.fromhex(x[4:]) if isinstance(x, str) and x.startswith("hex:") else x
+
+    async def go_sock() -> None:
+        import random
+
+        mon = Mon(ctx)
+        twin = vecu.Driver(witness["server_seed"], vecu.PARAM_SETS[witness["rp"]], vecu.all_switches())
+        await twin.setup()
+        server = vecu.make_server(witness["server_seed"], vecu.PARAM_SETS[witness["rp"]], None)
+        await server.setup()
+        n = int(witness.get("request_len", 1))
+        q = (ux(witness.get("request_head", b"\x3e\x00")) + bytes(n))[:n] or b"\x3e\x00"
+        pairs = []
+        for r in (b"\x3e\x00", q, b"\x3e\x00"):
+            reply, _ = await twin.transport.handle_request(r)
+            pairs.append((r, reply))
+        sv = Served(witness.get("kind", "unix"), server, ctx.mkscratch(), "replay")
+        try:
+            await one_connection(ctx, mon, sv, {"server_seed": witness["server_seed"], "rp": witness["rp"]}, pairs, bool(witness.get("burst")), random.Random(0))
+        finally:
+            await sv.stop(ctx)
+
+    if witness.get("mode") == "sock":
+        run_sock(go_sock())
+        return
 
     async def go() -> None:
         mon = Mon(ctx)
